@@ -244,7 +244,7 @@ def generate(rng, tier):
         "decide": {"policy": rng.choice(["vsids", "vsids", "random", "random", "low", "high", "prefix"]), "seed": rng.getrandbits(30),
                    "p": rng.choice([1.0, 0.5, 0.2])},
         # equal clauses are passed as ONE shared list object (`[clause] * 2` style) or as tuples
-        "share": rng.choice([False, False, True]), "tuples": rng.random() < 0.2,
+        "share": rng.choice([False, False, True]), "tuples": rng.random() < 0.2, "omit_defaults": rng.random() < 0.5,
     }
     return case
 
@@ -384,9 +384,14 @@ def run_once(case, use_hooks=True, decide=None):
     exceeded = False
     try:
         with budget.steps(step_limit(case)) as b:
-            res = fn(build_clauses(case), assumptions=list(case["assumptions"]) or None,
-                     max_conflicts=case["max_conflicts"], max_restarts=case["max_restarts"], solution_limit=case["solution_limit"],
-                     luby_factor=case["luby_factor"])
+            kw = {"assumptions": list(case["assumptions"]) or None, "max_conflicts": case["max_conflicts"],
+                  "max_restarts": case["max_restarts"], "solution_limit": case["solution_limit"], "luby_factor": case["luby_factor"]}
+            if case.get("omit_defaults"):  # arguments that equal the documented defaults are left out: the defaults themselves run
+                for k, d in (("assumptions", None), ("max_conflicts", 100_000), ("max_restarts", 10_000), ("solution_limit", 1),
+                             ("luby_factor", 100)):
+                    if kw[k] == d:
+                        del kw[k]
+            res = fn(build_clauses(case), **kw)
     except budget.StepBudgetExceeded:
         exceeded = True
     except SOLVER_ERRORS as e:
